@@ -359,12 +359,16 @@ func (st *StateDB) updateValidator(val *Validator) {
 }
 
 func (st *StateDB) deleteValidator(val *Validator) {
+	// a validator removed with RemoveValidator has already left the statistics
+	counted := !val.deleted
 	val.deleted = true
 	// the sorted set may have been built while the validator was still there
 	st.validatorsSorted = atomic.Value{}
 	st.deleteStakingData(val.MainAddress(), validatorFlag)
 	st.validatorIndex.Delete(val.MainAddress())
-	st.decrValidatorsStat(val)
+	if counted {
+		st.decrValidatorsStat(val)
+	}
 }
 
 func (st *StateDB) getValidator(mainAddress common.Address) *Validator {
